@@ -98,6 +98,31 @@ theorem heartbeat_before_election_timeout (hb x : Nat) (h : 0 < hb) :
   unfold Gen.heartbeatPeriod
   omega
 
+/-- `replication.deadlineSize(size)` with the call-site facts of the source: the time `durationFor` computes for the declared
+    bandwidth and the payload size, but at least the floor -/
+def writeTimeout (bw size hb : Nat) : Nat :=
+  let t := durationFor (Gen.deadlineArgs bw size).1 (Gen.deadlineArgs bw size).2
+  if t < Gen.deadlineFloor hb then Gen.deadlineFloor hb else t
+
+/-- **C17 — write deadlines.** A batch of entries or a snapshot of `size` bytes gets a write deadline that a link delivering
+    the bandwidth DECLARED in `Options.Bandwidth` can meet: the deadline is at least `size / bandwidth` seconds (and at least
+    two heartbeat timeouts). Otherwise a payload larger than bandwidth × floor could never be delivered: every attempt times
+    out, the same batch is resent with the same deadline, and a lagging follower never catches up. -/
+theorem write_deadline_covers_declared_bandwidth (bw size hb : Nat) :
+    size * 1000000000 / bw ≤ writeTimeout bw size hb ∧ 2 * hb ≤ writeTimeout bw size hb := by
+  unfold writeTimeout Gen.deadlineArgs Gen.deadlineFloor durationFor
+  dsimp only
+  split <;> omega
+
+def expectedDurationFor : String :=
+  "func(bandwidth int64, n int64) time.Duration { seconds := float64(n) / float64(bandwidth) return time.Duration(1e9 * seconds) }"
+
+/-- **tie**: util.go `durationFor` takes (bandwidth, n) in this order and is the formula the model was written from -/
+theorem durationFor_source : Gen.durationForSrc = expectedDurationFor := by decide +kernel
+
+/-- EXAMPLE: 256 KiB over a link declared at 16 KiB/s with a 1 s heartbeat timeout: 16 s, not the 2 s floor -/
+example : writeTimeout 16384 262144 1000000000 = 16000000000 := by decide
+
 /-- EXAMPLE (hypotheses satisfiable, numbers of the default options: hbTimeout = 1 s): after the 9th failure the retry delay is
     the bound 500 ms, below the election timeout 1 s + (x mod 1 s). -/
 example : backOff 9 (Gen.retryMax 1000000000) = 500000000 ∧ Gen.randDuration 1000000000 123456789012 = 1456789012 ∧
@@ -115,3 +140,5 @@ end Raft.C17Timing
 #print axioms Raft.C17Timing.election_timeout_onto
 #print axioms Raft.C17Timing.retry_before_election_timeout
 #print axioms Raft.C17Timing.heartbeat_before_election_timeout
+#print axioms Raft.C17Timing.write_deadline_covers_declared_bandwidth
+#print axioms Raft.C17Timing.durationFor_source
